@@ -57,6 +57,8 @@ impl Wake for Flag {
 #[derive(Clone, Debug, PartialEq, Eq)]
 pub struct SideSnap {
     pub finished: bool,
+    /// The side's poll was abandoned because it looped without awaiting (see `spinwatch`).
+    pub spun: bool,
     pub state: u8,
     /// Messages this side has in flight towards the other side.
     pub out_occupancy: u64,
@@ -83,7 +85,7 @@ impl Snap {
 
 fn side_json(s: &SideSnap) -> Value {
     json!({
-        "finished": s.finished, "state": state_name(s.state),
+        "finished": s.finished, "spinning_without_yield": s.spun, "state": state_name(s.state),
         "outbound_in_flight": s.out_occupancy, "inbound_in_flight": s.in_occupancy,
     })
 }
@@ -94,6 +96,9 @@ pub enum End {
     Completed,
     /// No unfinished side can ever run again (exact) / ran in the observation window.
     Stalled { snap: Snap, exact: bool },
+    /// At least one side looped inside a single poll without awaiting anything (counted, see
+    /// `spinwatch`); the other side was driven on until it finished or could not run any more.
+    Spin { snap: Snap, span_entries_without_io: u64 },
     /// Wall-clock watchdog without a conclusive state.
     Watchdog { snap: Snap },
 }
@@ -121,9 +126,10 @@ impl DriveCfg {
     }
 }
 
-fn snap(wire: &Wire, done: [bool; 2], extra: &StoreActivity) -> Snap {
+fn snap(wire: &Wire, done: [bool; 2], spun: [bool; 2], extra: &StoreActivity) -> Snap {
     let side = |i: usize| SideSnap {
         finished: done[i],
+        spun: spun[i],
         state: wire.state[i].load(SeqCst),
         out_occupancy: wire.occupancy(i),
         in_occupancy: wire.occupancy(1 - i),
@@ -136,6 +142,7 @@ fn snap(wire: &Wire, done: [bool; 2], extra: &StoreActivity) -> Snap {
 fn transport_blocked(s: &Snap) -> bool {
     s.sides.iter().all(|x| {
         x.finished
+            || x.spun
             || x.state == BLOCKED_IN_SEND
             || (x.state == BLOCKED_IN_RECV && x.in_occupancy == 0)
     })
@@ -165,6 +172,8 @@ where
     let mut out_a = None;
     let mut out_b = None;
     let mut polls = [0u64; 2];
+    let mut spun = [false; 2];
+    let mut spin_count = 0u64;
     let started = Instant::now();
     // Cleared on drop, also when the code under test panics inside a poll.
     let _io = slot.set_io(wire, extra_progress);
@@ -174,31 +183,50 @@ where
         let first = if rng.bool() { 0 } else { 1 };
         for i in [first, 1 - first] {
             let done = if i == 0 { out_a.is_some() } else { out_b.is_some() };
-            if done || !flags[i].woken.swap(false, SeqCst) {
+            if done || spun[i] || !flags[i].woken.swap(false, SeqCst) {
                 continue;
             }
             ran = true;
             polls[i] += 1;
             let mut cx = Context::from_waker(&wakers[i]);
             let _in_poll = slot.enter();
-            if i == 0 {
-                if let Poll::Ready(x) = fa.as_mut().poll(&mut cx) {
-                    out_a = Some(x);
+            let _armed = crate::spinwatch::arm(wire, extra_progress);
+            let polled = std::panic::catch_unwind(std::panic::AssertUnwindSafe(|| {
+                if i == 0 {
+                    if let Poll::Ready(x) = fa.as_mut().poll(&mut cx) {
+                        out_a = Some(x);
+                    }
+                } else if let Poll::Ready(x) = fb.as_mut().poll(&mut cx) {
+                    out_b = Some(x);
                 }
-            } else if let Poll::Ready(x) = fb.as_mut().poll(&mut cx) {
-                out_b = Some(x);
+            }));
+            if let Err(payload) = polled {
+                match payload.downcast::<crate::spinwatch::Spin>() {
+                    Ok(s) => {
+                        // The future was unwound out of its poll and must never be polled again.
+                        spun[i] = true;
+                        spin_count = s.span_entries_without_io;
+                    }
+                    Err(other) => std::panic::resume_unwind(other),
+                }
             }
         }
         let done = [out_a.is_some(), out_b.is_some()];
-        if done[0] && done[1] {
+        if (0..2).all(|i| done[i] || spun[i]) {
+            if spun[0] || spun[1] {
+                break End::Spin { snap: snap(wire, done, spun, extra_progress), span_entries_without_io: spin_count };
+            }
             break End::Completed;
         }
         if ran {
             continue;
         }
         // Nobody runnable.
-        let s1 = snap(wire, done, extra_progress);
+        let s1 = snap(wire, done, spun, extra_progress);
         if !cfg.external {
+            if spun[0] || spun[1] {
+                break End::Spin { snap: s1, span_entries_without_io: spin_count };
+            }
             break End::Stalled { snap: s1, exact: true };
         }
         let t0 = Instant::now();
@@ -213,12 +241,15 @@ where
         if woken {
             continue;
         }
-        let s2 = snap(wire, done, extra_progress);
+        let s2 = snap(wire, done, spun, extra_progress);
         if s2 == s1
             && extra_progress.in_flight.load(SeqCst) == 0
             && transport_blocked(&s2)
             && !flags.iter().any(|f| f.woken.load(SeqCst))
         {
+            if spun[0] || spun[1] {
+                break End::Spin { snap: s2, span_entries_without_io: spin_count };
+            }
             break End::Stalled { snap: s2, exact: false };
         }
         if started.elapsed() > cfg.watchdog {
@@ -243,6 +274,8 @@ pub fn stall_shape(s: &Snap, measured_cap: Option<usize>) -> (String, bool) {
         .map(|x| {
             if x.finished {
                 "finished".to_string()
+            } else if x.spun {
+                "spinning".to_string()
             } else {
                 match x.state {
                     BLOCKED_IN_SEND => {
@@ -258,7 +291,7 @@ pub fn stall_shape(s: &Snap, measured_cap: Option<usize>) -> (String, bool) {
         })
         .collect();
     parts.sort();
-    let both_send_full = s.sides.iter().all(|x| !x.finished && x.state == BLOCKED_IN_SEND && full(x.out_occupancy));
+    let both_send_full = s.sides.iter().all(|x| !x.finished && !x.spun && x.state == BLOCKED_IN_SEND && full(x.out_occupancy));
     (parts.join("+"), both_send_full)
 }
 
